@@ -3,18 +3,47 @@ from translators import tr_c02
 
 PID = "C02"
 CLAIM = True
-MANIFEST_TEXT = ""
-MANIFEST_NOTE = ""
-TECHNIQUE = 'Lean 4 proof over translated closed forms + hand-written LU model, differential correspondence over GF(32003) with Laplace-determinant oracle'
+MANIFEST_TEXT = ("Lean 4 theorems over an arbitrary field, for every size n and every admissible pivot-magnitude function: "
+                 "the closed forms for n<=3 (translated from densematrix.hh/fmatrix.hh on every run) give det = Matrix.det, "
+                 "A*x = b and A*B = B*A = 1 when det != 0; for the hand-written model of luDecomposition (pivot search, whole-row "
+                 "swap, singularity test, elimination, the three functors) solve returns x with A*x = b whenever it returns (with "
+                 "and without pivoting), singular A gives FMatrixError / determinant 0 in both modes, nonsingular A never fails "
+                 "with pivoting, detLU = Matrix.det, and invert (forward/backward sweeps + reverse column un-permutation) gives "
+                 "A*B = B*A = 1; DiagonalMatrix likewise. The model is run against FieldMatrix/DynamicMatrix/DiagonalMatrix "
+                 "instantiated with a GF(32003) number class (n=1..7, >=80k cases per quick run incl. all 0/1 matrices of size 3 "
+                 "and, in the thorough tier, of size 4) with an independent Laplace-determinant / A*x==b / A*B==I oracle and "
+                 "operand-unchanged checks; double/long double/complex are checked by residual.")
+MANIFEST_NOTE = ("Trusted: Lean kernel (+propext/Classical.choice/Quot.sound), Mathlib's Matrix.det, tr_c02.py, the fidelity "
+                 "of the hand-written LU model (differential execution over GF(p) only; any harmless change of pivot choice is "
+                 "invisible there by design), g++/ASan/UBSan. Floating point: the backward-error bound of Gaussian elimination "
+                 "is assumed, not proved; the harness only checks residuals for matrices with condition number <= ~100 "
+                 "(pivoting) or strictly diagonally dominant ones (no pivoting). Singular n<=3, singular DiagonalMatrix and "
+                 "unpivoted break-down on nonsingular A are outside the property and are not compared. SIMD lanes: see C09.")
+TECHNIQUE = ('Lean 4 proof (L*W = P*A0 invariant of in-place LU with partial pivoting, any field, any n) + translator for the '
+             'closed-form blocks + differential correspondence over GF(32003) with independent oracle')
 TRANSLATORS = [tr_c02.translate]
 HARNESS = dict(
     sources=["cxx_c02.cc"],
     repo_sources=["dune/common/exceptions.cc", "dune/common/stdstreams.cc"],
     flags=["-O0", "-g1"],
 )
-RULE = ""
-ASSUMPTIONS = []
-TRUSTED = []
+RULE = ("cases: field gf|f64|ld|c64 x op solve|invert|det|FMatrixHelp::invertMatrix[_retTransposed] x FieldMatrix|"
+        "DynamicMatrix|DiagonalMatrix x n=1..7 x pivoting on/off; GF(32003) matrices from 12 generators (dense, sparse, "
+        "row-permuted triangular, rank-deficient products, dependent/zero rows or columns, vanishing leading minor, pivot "
+        "ties x/p-x, monomial, singular only in the last step, diagonal-ish) plus exhaustive/strided enumeration of 0/1 and "
+        "0/1/-1 matrices; floats: rotations x diag(1..64) x rotations (pivoting) or strictly diagonally dominant (no "
+        "pivoting); distinct = distinct op lines; non-trivial = the oracle decided a clause of the property (value checked, "
+        "or FMatrixError/0 demanded); 'ok trivial' = behaviour unspecified by the property (singular n<=3, singular "
+        "diagonal, unpivoted break-down)")
+ASSUMPTIONS = [
+    "the LU model lean/DuneVerif/Model/C02.lean is hand-written; its fidelity to densematrix.hh rests on the differential run over GF(32003)",
+    "the closed forms for n<=3 and FMatrixHelp::invertMatrix* are regenerated from the source by tools/translators/tr_c02.py (straight-line grammar; anything else raises)",
+    "floating point: classical backward-error bound of Gaussian elimination assumed; residual tolerance 100 n^2 eps relative to ||A|| ||x|| + ||b|| (solve), ||A|| ||B|| (inverse), prod of row 1-norms (determinant)",
+    "the theorems need absval x = 0 <-> x = 0 and 0 <= absval x (true for abs on real/complex fields and for the harness' GF(p) class)",
+    "'solve and determinant never modify A or b' is decided by the harness (operands compared before/after), the functional model cannot express it",
+]
+TRUSTED = ["g++/libstdc++, ASan/UBSan", "Mathlib v4.33 (Matrix.det, Equiv.Perm.sign, BlockTriangular)",
+           "translator tr_c02.py", "harness/cxx_c02.cc (GF(p) class, generators, Laplace/residual oracles) + Driver/C02.lean parsing/printing"]
 
 
 def batches(tier, seed):
